@@ -288,11 +288,11 @@ package avro
 //@ func (BytesCodec).Write
 //@   implements Codec.Write
 //@   let b0 := w.buf, s := membytes(p)
-//@   requires w != nil && p != nil && rawalloc(p, 24) && 0 <= len(s) && len(s) < 1<<40 && (len(s) == 0 || (allocated(s) && base(s) != base(w.buf)))
+//@   requires w != nil && rdable(p, 24) && wfslice(s)
 //@   ensures [C13,C02,C17] len(w.buf) == len(b0) + uvlen(zz(int64(len(s)))) + len(s)
 //@   ensures [C13,C02,C17] forall k int :: 0 <= k && k < len(b0) ==> w.buf[k] == old(b0[k])
 //@   ensures [C13,C02,C17] forall j int :: 0 <= j && j < uvlen(zz(int64(len(s)))) ==> w.buf[len(b0)+j] == uvbyte(zz(int64(len(s))), j)
-//@   ensures [C13,C02,C17] forall j int :: 0 <= j && j < len(s) ==> w.buf[len(b0)+uvlen(zz(int64(len(s))))+j] == old(s[j])
+//@   ensures [C13,C02,C17] (len(s) == 0 || base(s) != base(b0)) ==> forall j int :: 0 <= j && j < len(s) ==> w.buf[len(b0)+uvlen(zz(int64(len(s))))+j] == old(s[j])
 //@   ensures [C13,C02] tlen() == 2 && tkind(0) == evV && ta(0) == uint64(len(s)) && tkind(1) == evW && ta(1) == uint64(len(s))
 //@   ensures base(w.buf) == old(base(w.buf)) || newobj(w.buf)
 //@   modifies w.buf, BH[w.buf]
@@ -320,11 +320,11 @@ package avro
 //@ func (StringCodec).Write
 //@   implements Codec.Write
 //@   let b0 := w.buf, s := memstr(p)
-//@   requires w != nil && p != nil && rawalloc(p, 16) && 0 <= len(s) && len(s) < 1<<40 && (len(s) == 0 || (allocated(s) && base(s) != base(w.buf)))
+//@   requires w != nil && rdable(p, 16) && wfslice(s)
 //@   ensures [C13,C02,C17] len(w.buf) == len(b0) + uvlen(zz(int64(len(s)))) + len(s)
 //@   ensures [C13,C02,C17] forall k int :: 0 <= k && k < len(b0) ==> w.buf[k] == old(b0[k])
 //@   ensures [C13,C02,C17] forall j int :: 0 <= j && j < uvlen(zz(int64(len(s)))) ==> w.buf[len(b0)+j] == uvbyte(zz(int64(len(s))), j)
-//@   ensures [C13,C02,C17] forall j int :: 0 <= j && j < len(s) ==> w.buf[len(b0)+uvlen(zz(int64(len(s))))+j] == old(s[j])
+//@   ensures [C13,C02,C17] (len(s) == 0 || base(s) != base(b0)) ==> forall j int :: 0 <= j && j < len(s) ==> w.buf[len(b0)+uvlen(zz(int64(len(s))))+j] == old(s[j])
 //@   ensures [C13,C02] tlen() == 2 && tkind(0) == evV && ta(0) == uint64(len(s)) && tkind(1) == evW && ta(1) == uint64(len(s))
 //@   ensures base(w.buf) == old(base(w.buf)) || newobj(w.buf)
 //@   modifies w.buf, BH[w.buf]
@@ -347,9 +347,10 @@ package avro
 
 //@ iface Codec.Read
 //@   let i0 := r.i, b0 := r.buf
-//@   requires wfRBS(r) && this != nil && wfc(this) && 0 <= dsz(this) && (dsz(this) > 0 ==> p != nil) && rawalloc(p, dsz(this))
+//@   requires wfRBS(r) && this != nil && wfc(this) && 0 <= dsz(this) && (dsz(this) > 0 ==> p != nil) && rawalloc(p, dsz(this)) && zeroed(p, dsz(this))
 //@   ensures [C04,C05,C06,C03] wfRBS(r) && i0 <= r.i && r.buf == b0 && sameobj(b0)
 //@   ensures [C04] err == nil ==> r.i == cend(this, b0, i0)
+//@   ensures base(r.rb.sData) == old(base(r.rb.sData)) || newobj(r.rb.sData)
 //@   modifies r.i, M[p, dsz(this)], r.rb.sData, r.rb.types, type resourceType, BH[r.rb.sData]
 //@   emits CR(this, p)
 
@@ -442,7 +443,7 @@ package avro
 //@ func (*unionNullString).Write
 //@   implements Codec.Write
 //@   let s := memstr(p), om := u.codec.omitEmpty && len(memstr(p)) == 0
-//@   requires w != nil && u != nil && u.nonNull <= 1 && rdable(p, 16) && wfslice(s) && (len(s) == 0 || base(s) != base(w.buf))
+//@   requires w != nil && u != nil && u.nonNull <= 1 && rdable(p, 16) && wfslice(s)
 //@   ensures [C13,C02] om ==> tlen() == 1 && tkind(0) == evV && ta(0) == 1 - uint64(u.nonNull)
 //@   ensures [C13,C02] !om ==> tlen() == 3 && tkind(0) == evV && ta(0) == uint64(u.nonNull) && tkind(1) == evV && ta(1) == uint64(len(s)) && tkind(2) == evW && ta(2) == uint64(len(s))
 //@   ensures base(w.buf) == old(base(w.buf)) || newobj(w.buf)
@@ -452,3 +453,92 @@ package avro
 //@   ensures res == (sc.omitEmpty && len(memstr(p)) == 0)
 //@   requires p != nil
 //@   pure
+
+// ---------------------------------------------------------------- allocation
+
+//@ iface Codec.New
+//@   let i0 := r.i, b0 := r.buf
+//@   requires wfRBS(r) && this != nil && wfc(this)
+//@   ensures [C05,C20,C03,C04] wfRBS(r) && r.i == i0 && r.buf == b0 && sameobj(b0)
+//@   ensures [C05,C20,C11] dsz(this) > 0 ==> res != nil && rawalloc(res, dsz(this)) && rawfresh(res, dsz(this)) && zeroed(res, dsz(this))
+//@   modifies r.rb.types, type resourceType, M[0, 0]
+//@   emits NEW(this)
+
+// ---------------------------------------------------------------- pointer.go
+
+//@ type *PointerCodec : dsz = 8 ; wfc = this != nil && this.Codec != nil && wfc(this.Codec) && 0 < dsz(this.Codec) ; \
+//@      cend(b, i) = cend(this.Codec, b, i) ; wfval(p) = rdable(p, 8) && (mem64(p) == 0 || wfval(this.Codec, ptr(mem64(p))))
+
+//@ func (*PointerCodec).Read
+//@   implements Codec.Read
+//@   let i0 := r.i, b0 := r.buf
+//@   requires wfRBS(r) && wfc(asiface(c)) && p != nil && rawalloc(p, 8) && zeroed(p, 8)
+//@   ensures [C03,C05] mem64(p) != 0 && rawfresh(ptr(mem64(p)), dsz(c.Codec))
+//@   ensures [C03] tlen() == 2 && tkind(0) == evNEW && tkind(1) == evCR && ta(1) == tag(c.Codec) && tb(1) == uint64(data(c.Codec)) && tc(1) == mem64(p)
+//@   modifies r.i, M[p, 8], r.rb.sData, r.rb.types, type resourceType, BH[r.rb.sData]
+
+//@ func (*PointerCodec).Omit
+//@   implements Codec.Omit
+//@   requires p != nil
+//@   ensures [C13,C02] res == (mem64(p) == 0)
+//@   pure
+
+//@ func (*PointerCodec).Write
+//@   implements Codec.Write
+//@   requires w != nil && wfc(asiface(c)) && wfval(asiface(c), p)
+//@   ensures [C13,C02] mem64(p) == 0 ==> tlen() == 0 && w.buf == old(w.buf)
+//@   ensures [C13,C02] mem64(p) != 0 ==> tlen() == 1 && tkind(0) == evCW && ta(0) == tag(c.Codec) && tb(0) == uint64(data(c.Codec)) && tc(0) == mem64(p)
+//@   ensures base(w.buf) == old(base(w.buf)) || newobj(w.buf)
+//@   modifies w.buf, BH[w.buf]
+
+// ---------------------------------------------------------------- record.go (Avro: a record is the concatenation of its fields' encodings in schema order)
+
+//@ ghost recsz(c ptr) int
+//@ ghost rend(c ptr, b bytes, i int, k int) int
+//@ axiom rend_unfold(c ptr, b bytes, i int, k int): rend(c, b, i, 0) == i && (0 <= k && k < len(c.fields) ==> rend(c, b, i, k+1) == cend(c.fields[k].codec, b, rend(c, b, i, k)))
+
+//@ spec fieldOK(rc ptr, k int) bool = rc.fields[k].codec != nil && wfc(rc.fields[k].codec) && 0 <= dsz(rc.fields[k].codec) && dsz(rc.fields[k].codec) < 1<<40 \
+//@      && (rc.fields[k].offset != MaxUint64 ==> rc.fields[k].offset < 1<<40 && int(rc.fields[k].offset) + dsz(rc.fields[k].codec) <= recsz(rc) && dsz(rc.fields[k].codec) > 0)
+//@ spec present(rc ptr, k int) bool = rc.fields[k].offset != MaxUint64
+//@ spec disjointFields(rc ptr, j int, k int) bool = int(rc.fields[j].offset) + dsz(rc.fields[j].codec) <= int(rc.fields[k].offset) || int(rc.fields[k].offset) + dsz(rc.fields[k].codec) <= int(rc.fields[j].offset)
+//@ type *recordCodec : dsz = recsz(this) ; wfc = this != nil && 0 <= recsz(this) && recsz(this) < 1<<40 && (forall k int :: 0 <= k && k < len(this.fields) ==> fieldOK(this, k)) \
+//@        && (forall j int, k int :: 0 <= j && j < k && k < len(this.fields) && present(this, j) && present(this, k) ==> disjointFields(this, j, k)) ; \
+//@      cend(b, i) = rend(this, b, i, len(this.fields)) ; \
+//@      wfval(p) = p != nil && (forall k int :: 0 <= k && k < len(this.fields) ==> this.fields[k].offset != MaxUint64 && wfval(this.fields[k].codec, uintptr(p) + this.fields[k].offset))
+
+//@ func (*recordCodec).Skip
+//@   implements Codec.Skip
+//@   let i0 := r.i, b0 := r.buf
+//@   requires wfRB(r) && wfc(asiface(rc))
+//@   ensures [C04] err == nil ==> r.i == rend(rc, b0, i0, len(rc.fields))
+//@   modifies r.i
+//@   loop 1 invariant -1 <= rangeindex && rangeindex < len(rc.fields) && (len(rc.fields) == 0 ==> rangeindex == -1)
+//@   loop 1 invariant wfRB(r) && r.buf == b0 && i0 <= r.i && r.i == rend(rc, b0, i0, rangeindex + 1)
+//@   loop 1 uses rend_unfold(rc, b0, i0, rangeindex + 1)
+//@   loop 1 decreases len(rc.fields) - rangeindex
+
+//@ func (*recordCodec).Read
+//@   implements Codec.Read
+//@   let i0 := r.i, b0 := r.buf, sd0 := r.rb.sData, rb0 := r.rb
+//@   requires wfRBS(r) && wfc(asiface(rc)) && (recsz(rc) > 0 ==> p != nil) && rawalloc(p, recsz(rc)) && zeroed(p, recsz(rc))
+//@   ensures [C04] err == nil ==> r.i == rend(rc, b0, i0, len(rc.fields))
+//@   modifies r.i, M[p, recsz(rc)], r.rb.sData, r.rb.types, type resourceType, BH[r.rb.sData]
+//@   loop 1 invariant -1 <= rangeindex && rangeindex < len(rc.fields) && (len(rc.fields) == 0 ==> rangeindex == -1)
+//@   loop 1 invariant wfRBS(r) && r.buf == b0 && sameobj(b0) && i0 <= r.i && r.i == rend(rc, b0, i0, rangeindex + 1)
+//@   loop 1 invariant rawalloc(p, recsz(rc)) && memframe(p, recsz(rc))
+//@   loop 1 invariant r.rb == rb0 && bhframe(sd0) && (base(r.rb.sData) == base(sd0) || newobj(r.rb.sData))
+//@   loop 1 invariant forall j int :: rangeindex < j && j < len(rc.fields) && present(rc, j) ==> zeroed(uintptr(p) + rc.fields[j].offset, dsz(rc.fields[j].codec))
+//@   loop 1 uses rend_unfold(rc, b0, i0, rangeindex + 1)
+//@   loop 1 decreases len(rc.fields) - rangeindex
+
+//@ func (*recordCodec).Write
+//@   implements Codec.Write
+//@   let b0 := w.buf
+//@   requires w != nil && wfc(asiface(rc)) && wfval(asiface(rc), p)
+//@   ensures [C02,C13] tlen() == len(rc.fields) && forall k int :: 0 <= k && k < len(rc.fields) ==> tkind(k) == evCW && ta(k) == tag(rc.fields[k].codec) && tb(k) == uint64(data(rc.fields[k].codec)) && tc(k) == uint64(p) + uint64(rc.fields[k].offset)
+//@   ensures len(b0) <= len(w.buf) && (forall k int :: 0 <= k && k < len(b0) ==> w.buf[k] == old(b0[k])) && (base(w.buf) == old(base(w.buf)) || newobj(w.buf))
+//@   modifies w.buf, BH[w.buf]
+//@   loop 1 invariant -1 <= rangeindex && rangeindex < len(rc.fields) && (len(rc.fields) == 0 ==> rangeindex == -1)
+//@   loop 1 invariant tlen() == rangeindex + 1 && forall k int :: 0 <= k && k <= rangeindex ==> tkind(k) == evCW && ta(k) == tag(rc.fields[k].codec) && tb(k) == uint64(data(rc.fields[k].codec)) && tc(k) == uint64(p) + uint64(rc.fields[k].offset)
+//@   loop 1 invariant w != nil && len(b0) <= len(w.buf) && (forall k int :: 0 <= k && k < len(b0) ==> w.buf[k] == old(b0[k])) && (base(w.buf) == old(base(w.buf)) || newobj(w.buf)) && bhframe(b0)
+//@   loop 1 decreases len(rc.fields) - rangeindex
